@@ -428,7 +428,15 @@ Definition d1_var (u : universe) (var : xvar) : bool :=
 Definition same_keys (a b : list str) : bool :=
   forallb (fun k => existsb (str_eqb k) b) a && forallb (fun k => existsb (str_eqb k) a) b.
 
-Fixpoint d1_value (g : generics) (c : conv) (u : universe) (fuel : nat) (v : value) {struct fuel} : bool :=
+(* the decoder recognises the generic dictionaries by their exact key set; with the
+   None-filtering factory any subset of a class's keys can be what is left *)
+Definition generic_keys_ok (fac : dict_factory) (locals ks : list str) : bool :=
+  match fac with
+  | FDict => negb (same_keys locals ks)
+  | FFilterNone => negb (forallb (fun k => existsb (str_eqb k) locals) ks)
+  end.
+
+Fixpoint d1_value (g : generics) (fac : dict_factory) (c : conv) (u : universe) (fuel : nat) (v : value) {struct fuel} : bool :=
   match fuel with
   | O => false
   | S f =>
@@ -441,7 +449,7 @@ Fixpoint d1_value (g : generics) (c : conv) (u : universe) (fuel : nat) (v : val
               let item := fun (var : xvar) (x : value) =>
                 match x with
                 | VP p => existsb (ptype_eqb (prim_type p)) (v_types var) && leaf_ok c u var p
-                | VObj c' _ => opt_eqb N.eqb (v_clazz var) (Some c') && d1_value g c u f x
+                | VObj c' _ => opt_eqb N.eqb (v_clazz var) (Some c') && d1_value g fac c u f x
                 | _ => false
                 end in
               let token := fun (var : xvar) (x : value) =>
@@ -452,8 +460,8 @@ Fixpoint d1_value (g : generics) (c : conv) (u : universe) (fuel : nat) (v : val
               negb (N.eqb cl (g_any g)) && negb (N.eqb cl (g_derived g))
               && list_eqb str_eqb (map fst fs) (map v_name vars)
               && distinct_keys (map v_name vars) && distinct_keys (map v_local_name vars)
-              && negb (same_keys (map v_local_name vars) DERIVED_KEYS)
-              && negb (same_keys (map v_local_name vars) ANY_KEYS)
+              && generic_keys_ok fac (map v_local_name vars) DERIVED_KEYS
+              && generic_keys_ok fac (map v_local_name vars) ANY_KEYS
               && forallb (d1_var u) vars
               && forallb (fun var =>
                    match assoc (v_name var) fs with
@@ -482,7 +490,7 @@ Fixpoint d1_value (g : generics) (c : conv) (u : universe) (fuel : nat) (v : val
 Definition in_proved_slice (uk : universe * dc_case) : bool :=
   let '(u, k) := uk in
   negb (dc_ignore k) && negb (dc_is_list k)
-  && d1_value (dc_gen k) (conv_of_table (dc_table k)) u (S (vdepth (dc_value k))) (dc_value k).
+  && d1_value (dc_gen k) (dc_factory k) (conv_of_table (dc_table k)) u (S (vdepth (dc_value k))) (dc_value k).
 
 (* the theorem's statement evaluated by the model on the case (sanity of its reading) *)
 Definition theorem_instance (uk : universe * dc_case) : bool :=
